@@ -133,7 +133,11 @@ func runStream(s *Stream, modelBin string, seed int64, n int, thorough bool, cor
 			sum.Dist[t]++
 		}
 		if c.Nontriv {
-			distinct[c.Req] = true
+			if c.Req != "" {
+				distinct[c.Req] = true
+			} else {
+				distinct[c.Human] = true
+			}
 		}
 		if c.Oracle != "" {
 			sum.OracleFails = append(sum.OracleFails, OracleFailure{s.Name, c.OracleID, c.Human, c.Oracle, c.Req})
